@@ -179,7 +179,30 @@ func (n *lazyNode) tryAry() bool {
 	return true
 }
 
+// isNull reports whether the node stands for the JSON value null: a nil node
+// (a null decoded from a document), a node without raw text (a null supplied
+// by a patch) or a node holding the text "null".
+func (n *lazyNode) isNull() bool {
+	if n == nil {
+		return true
+	}
+
+	if n.which != eRaw {
+		return false
+	}
+
+	if n.raw == nil {
+		return true
+	}
+
+	return bytes.Equal(n.compact(), []byte("null"))
+}
+
 func (n *lazyNode) equal(o *lazyNode) bool {
+	if n.isNull() || o.isNull() {
+		return n.isNull() && o.isNull()
+	}
+
 	if n.which == eRaw {
 		if !n.tryDoc() && !n.tryAry() {
 			if o.which != eRaw {
@@ -212,11 +235,11 @@ func (n *lazyNode) equal(o *lazyNode) bool {
 				return false
 			}
 
-			if (v == nil) != (ov == nil) {
+			if v.isNull() != ov.isNull() {
 				return false
 			}
 
-			if v == nil && ov == nil {
+			if v.isNull() && ov.isNull() {
 				continue
 			}
 
@@ -686,12 +709,12 @@ func (p Patch) test(doc *container, op Operation) error {
 		return fmt.Errorf("error in test for path: '%s': %w", path, err)
 	}
 
-	if val == nil {
-		if op.value() == nil || op.value().raw == nil {
+	if val.isNull() {
+		if op.value().isNull() {
 			return nil
 		}
 		return fmt.Errorf("testing value %s failed: %w", path, ErrTestFailed)
-	} else if op.value() == nil {
+	} else if op.value().isNull() {
 		return fmt.Errorf("testing value %s failed: %w", path, ErrTestFailed)
 	}
 
